@@ -82,6 +82,14 @@ HasMerkle(T) == \E i \in 1..Len(T) : MerkleCell(T[i])
 \* whatever a well-formed Merkle cell may hold: pruned branches of the level its Merkle depth allows)
 ExoticSourceOK(T, R) == /\ \A i \in 1..Len(T) : T[i].x \in {Ordinary, Pruned, MerkleProof, MerkleUpdate}
                         /\ T[R].x = Ordinary /\ T[R].m = 0 /\ HasMerkle(T) /\ WellFormed(T)
+\* a CUT from beneath Merkle cells: the tree found under two or more nested Merkle cells of some proof, taken as a source of
+\* its own.  Ordinary cells of any level and pruned branches of any well-formed mask (a branch of mask 2 or 4 answers level 0
+\* with its own representation hash: Cells!InfoTable), no Merkle cell.  Proof(T, R, PS) needs no new rule: a position is
+\* pruned by 01 01 || Hash_0 || Depth_0 (PrunedCellK with k = 0 stores the levels below 1 only), a kept cell's mask is the
+\* OR of its children's - which now differs from their maximum (a new branch of mask 1 beside a kept one of mask 2 gives 3).
+HighViewOK(T, R) == /\ \A i \in 1..Len(T) : T[i].x \in {Ordinary, Pruned}
+                    /\ T[R].x = Ordinary /\ \E i \in 1..Len(T) : T[i].x = Pruned /\ T[i].m \notin {0, 1}
+                    /\ WellFormed(T)
 \* (sources with Merkle cells are not partial views: their pruned branches lie beneath Merkle cells, the root has level 0)
 Partial(T)   == ~HasMerkle(T) /\ \E i \in 1..Len(T) : T[i].x = Pruned
 \* some Merkle cell occurs at a position no proper prefix of which is in PS
